@@ -35,23 +35,29 @@ def writer_escape(model: Model):
 def callback_format(model: Model, fi: FuncInfo, cb: ast.expr) -> Optional[Tuple[str, str]]:
     """(prefix, format-spec) of an escaping callback, written as  f"<prefix>{ord(m.group(0)):<spec>}"  (optionally .encode()),
     "<prefix>%<spec>" % ord(m.group(0)),  b"<prefix>%<spec>" % m.group(0)[0]  or  "<prefix>{:<spec>}".format(ord(m.group(0)))."""
-    if not isinstance(cb, ast.Name):
-        return None
-    node = None
-    for n in ast.walk(fi.node):
-        if isinstance(n, ast.FunctionDef) and n.name == cb.id:
-            node = n
-    if node is None:
-        q = model.resolve_name(fi.module, cb.id)
-        f2 = model.functions.get(q) if q else None
-        node = f2.node if f2 is not None and isinstance(f2.node, ast.FunctionDef) else None
-    if node is None or not node.args.args:
-        return None
-    mparam = node.args.args[0].arg
-    rets = [r for r in ast.walk(node) if isinstance(r, ast.Return)]
-    if len(rets) != 1:
-        return None
-    v = rets[0].value
+    if isinstance(cb, ast.Lambda):
+        if len(cb.args.args) != 1:
+            return None
+        mparam = cb.args.args[0].arg
+        v = cb.body
+    else:
+        if not isinstance(cb, ast.Name):
+            return None
+        node = None
+        for n in ast.walk(fi.node):
+            if isinstance(n, ast.FunctionDef) and n.name == cb.id:
+                node = n
+        if node is None:
+            q = model.resolve_name(fi.module, cb.id)
+            f2 = model.functions.get(q) if q else None
+            node = f2.node if f2 is not None and isinstance(f2.node, ast.FunctionDef) else None
+        if node is None or not node.args.args:
+            return None
+        mparam = node.args.args[0].arg
+        rets = [r for r in ast.walk(node) if isinstance(r, ast.Return)]
+        if len(rets) != 1:
+            return None
+        v = rets[0].value
     if isinstance(v, ast.Call) and isinstance(v.func, ast.Attribute) and v.func.attr == "encode":
         v = v.func.value
 
